@@ -68,11 +68,21 @@ def run_rules(mod, repo, only_rules=None):
     return obs, summary, errors
 
 
+def _all_variants(mod):
+    """the property's own variants plus the generic whole-tree twins"""
+    from .variants import Variant
+    from .alpha import rename_all
+    vs = list(mod.variants()) if hasattr(mod, "variants") else []
+    vs.append(Variant("twin: every local variable of every function alpha-renamed (whole tree)", None, rename_all,
+                      None, twin=True))
+    return vs
+
+
 def _variant_worker(args):
     pid, root, idx = args
     os.environ["HSA_REPO"] = root
     mod = load_prop(pid)
-    v = mod.variants()[idx]
+    v = _all_variants(mod)[idx]
     scratch = None
     try:
         if v.relpath is None:
@@ -123,7 +133,7 @@ def _variant_worker(args):
 
 
 def run_variants(pid, mod, root, baseline_keys, seed):
-    vs = mod.variants() if hasattr(mod, "variants") else []
+    vs = _all_variants(mod)
     if not vs:
         return [], []
     order = list(range(len(vs)))
